@@ -1065,7 +1065,19 @@ package restful
 // Totality only (C02/C05): the ranking contract of insertMime (three nested
 // appends over float keys) is not discharged by the solvers within the limit
 // and is therefore not claimed; see DESIGN.md.
+// one unfolding of mimeLow, as a lemma with a trigger (the definition itself stays hidden where it is used)
+//@ lemma C05.low-unfold
+//@ props C02 C05
+//@ forall l []mime, x float64, k int
+//@ requires 0 <= k
+//@ ensures end: k >= len(l) ==> mimeLow(l, x, k) == len(l)
+//@ ensures hit: k < len(l) && l[k].quality < x ==> mimeLow(l, x, k) == k
+//@ ensures skip: k < len(l) && l[k].quality >= x ==> mimeLow(l, x, k) == mimeLow(l, x, k+1)
+//@ trigger mimeLow(l, x, k)
+
 //@ func insertMime
+//@ uses P/C05.low-unfold
+//@ opt opaque.P mimeLow
 //@ props C02 C05
 //@ ensures len: len(result) == len(l) + 1
 //@ ensures owned: fresh(result) || sameArray(result, l)
@@ -1074,8 +1086,14 @@ package restful
 //@ ensures Q/prefix: forall(0, old(len(l)), func(k int) bool { return forall(0, k+1, func(m int) bool { return old(l[m]).quality >= e.quality }) ==> result[k] == old(l[k]) })
 //@ ensures Q/shifted: forall(0, old(len(l)), func(k int) bool { return exists(0, k+1, func(m int) bool { return e.quality > old(l[m]).quality }) ==> result[k+1] == old(l[k]) })
 //@ ensures Q/placed: forall(0, old(len(l))+1, func(k int) bool { return forall(0, k, func(m int) bool { return old(l[m]).quality >= e.quality }) && (k == old(len(l)) || e.quality > old(l[k]).quality) ==> result[k] == e })
+// the same placement over the position mimeLow(l, e.quality, 0): what stands before it stays, the entry goes there, the rest moves up by one
+//@ ensures P/before: forall(0, old(mimeLow(l, e.quality, 0)), func(k int) bool { return result[k] == old(l[k]) })
+//@ ensures P/at: result[old(mimeLow(l, e.quality, 0))] == e
+//@ ensures P/after: forall(old(mimeLow(l, e.quality, 0))+1, old(len(l))+1, func(k int) bool { return result[k] == old(l[k-1]) })
 //@ modifies elems(l)
 //@ nopanic
+//@ loop 0 invariant P/scan: old(mimeLow(l, e.quality, 0)) == old(mimeLow(l, e.quality, it_i))
+//@ loop 0 invariant P/same: forall(0, len(l), func(k int) bool { return l[k] == old(l[k]) })
 //@ loop 0 invariant Q/before: forall(0, it_i, func(k int) bool { return l[k].quality >= e.quality })
 //@ loop 0 invariant Q/same: forall(0, len(l), func(k int) bool { return l[k] == old(l[k]) })
 
@@ -1083,8 +1101,134 @@ package restful
 //@ props C02 C05
 //@ nopanic
 //@ modifies nothing
+//@ uses R/C05.len-bounds
+//@ uses R/C05.low-bounds
+// (low-above not needed)
+//@ uses R/C05.low-agree
 //@ opt opaque model_splitPart model_splitCount model_strings_Trim
+//@ opt opaque.R rkLow mimeLow tParsed tQ tMedia
+// C05: the result is the ranking of the usable ranges of the header, in the order given by the witness rkSrc
+// (greater weight first, header order on ties: lemmas C05.rank-*)
+//@ ensures R.L/len: len(sorted) == rkLen(accept, rangeCount(accept))
+//@ ensures R/entries: forall(0, len(sorted), func(k int) bool { return sorted[k].media == rMedia(accept, rkSrc(accept, rangeCount(accept), k)) && sorted[k].quality == rQ(accept, rkSrc(accept, rangeCount(accept), k)) })
+//@ callsite insertMime range: rParsed(accept, it_i) && arg1.media == rMedia(accept, it_i) && arg1.quality == rQ(accept, it_i)
+//@ callsite insertMime R/agree: mimeLow(arg0, arg1.quality, 0) == rkIns(accept, it_i)
+//@ loop 0 keeps H_string
+//@ loop 1 keeps H_string
 //@ loop 0 invariant owned: sorted == nil || fresh(sorted)
+//@ loop 0 invariant R.L/len: len(sorted) == rkLen(accept, it_i)
+//@ loop 0 invariant R/entries: forall(0, len(sorted), func(k int) bool { return sorted[k].media == rMedia(accept, rkSrc(accept, it_i, k)) && sorted[k].quality == rQ(accept, rkSrc(accept, it_i, k)) })
+// the weight of a range is that of its first q parameter, wherever it stands; a range whose weight is not a number is left out
+//@ loop 1 invariant noq: valid && quality == 1.0
+//@ loop 1 invariant scan: qIdx(tRange(each), 1) == qIdx(tRange(each), 1+it_i)
+//@ loop 1 invariant a: 1+it_i <= model_splitCount(tRange(each), ";")
+//@ loop 1 invariant b: len(typeAndQuality) == model_splitCount(tRange(each), ";")
+//@ loop 1 invariant c: forall(0, len(typeAndQuality), func(k int) bool { return typeAndQuality[k] == model_splitPart(tRange(each), ";", k) })
+//@ loop 1 exit weight: valid == tParsed(each) && (valid ==> quality == tQ(each))
+
+// C05: the writer of the range the Accept header ranks highest among those the route can answer
+//@ func (*Response).EntityWriter
+//@ props C05
+//@ uses B/C05.rank-range
+//@ uses B/C05.rank-order
+//@ uses B/C05.rank-pos
+//@ opt opaque rkSrc rkPos rkLen rkLow rQ rParsed rMedia tParsed tQ tMedia
+//@ requires r != nil && ghostInt("lock.ptr", entityAccessRegistry.protection) >= 0
+//@ requires registered: allRegistered(entityAccessRegistry, r.routeProduces)
+//@ modifies nothing
+//@ nopanic
+//@ ensures found: result1 ==> result0 != nil
+//@ ensures B/best: forall(0, rangeCount(r.requestAccept), func(j int) bool { return rangeBest(r.requestAccept, r.routeProduces, j) ==> result1 && result0 == entityAccessRegistry.accessors[chosenMedia(r.routeProduces, rMedia(r.requestAccept, j))] })
+//@ ensures B/never406: forall(0, rangeCount(r.requestAccept), func(j int) bool { return rangeUseful(r.requestAccept, r.routeProduces, j) ==> result1 })
+//@ ensures fallback: len(r.routeProduces) > 0 && DefaultResponseMimeType == "" ==> result1
+//@ loop 0 invariant B/none: forall(0, it_i, func(k int) bool { return !mediaUseful(r.routeProduces, sorted[k].media) })
+//@ loop 1 invariant forall(0, it_i, func(k int) bool { return r.routeProduces[k] != sorted[it_o].media })
+//@ loop 2 invariant it_i == 0
+//@ loop 3 invariant it_i == 0
+
+// --- the ranking of Accept ranges (C05) ---------------------------------------
+// rkSrc(h, n, k) is the range standing at position k after the first n ranges were ranked (a witness
+// that follows the insertion); the lemmas state the ranking the property asks for: every position
+// holds a usable range, greater weight first and header order on ties, every usable range has a position.
+
+//@ lemma C05.len-bounds
+//@ props C05
+//@ forall h string, n int
+//@ opt opaque rParsed
+//@ induction n
+//@ requires 0 <= n
+//@ ensures 0 <= rkLen(h, n) && rkLen(h, n) <= n
+//@ trigger rkLen(h, n)
+
+//@ lemma C05.low-bounds
+//@ props C05
+//@ forall h string, n int, x float64, k int, d int
+//@ opt opaque rQ rParsed rkSrc rkLen
+//@ requires def.d: d == rkLen(h, n) - k
+//@ requires 0 <= k && k <= rkLen(h, n)
+//@ induction d general
+//@ ensures bounds: k <= rkLow(h, n, x, k) && rkLow(h, n, x, k) <= rkLen(h, n)
+//@ ensures below: rkLow(h, n, x, k) < rkLen(h, n) ==> rQ(h, rkSrc(h, n, rkLow(h, n, x, k))) < x
+//@ trigger rkLow(h, n, x, k)
+
+//@ lemma C05.low-above
+//@ props C05
+//@ forall h string, n int, x float64, k int, i int, d int
+//@ opt opaque rQ rParsed rkSrc rkLen
+//@ requires def.d: d == rkLen(h, n) - k
+//@ requires 0 <= k && k <= rkLen(h, n)
+//@ induction d general
+//@ ensures above: k <= i && i < rkLow(h, n, x, k) ==> rQ(h, rkSrc(h, n, i)) >= x
+//@ trigger rkLow(h, n, x, k), rkSrc(h, n, i)
+
+// the position insertMime computes on the list is the position of the ranking
+//@ lemma C05.low-agree
+//@ props C05
+//@ forall l []mime, h string, n int, x float64, k int, d int
+//@ uses C05.low-unfold
+//@ opt opaque mimeLow rkSrc rQ rMedia rkLen
+//@ requires def.d: d == len(l) - k
+//@ requires rankedAs(l, h, n) && 0 <= k && k <= len(l)
+//@ induction d general
+//@ ensures mimeLow(l, x, k) == rkLow(h, n, x, k)
+//@ trigger mimeLow(l, x, k), rkLow(h, n, x, k)
+
+//@ lemma C05.rank-range
+//@ props C05
+//@ forall h string, n int, k int
+//@ uses C05.low-bounds
+//@ uses C05.low-above
+//@ opt opaque rQ rParsed rkLow
+//@ induction n general
+//@ requires 0 <= n && 0 <= k && k < rkLen(h, n)
+//@ ensures 0 <= rkSrc(h, n, k) && rkSrc(h, n, k) < n && rParsed(h, rkSrc(h, n, k))
+//@ trigger rkSrc(h, n, k)
+
+//@ lemma C05.rank-order
+//@ props C05
+//@ forall h string, n int, a int, b int
+//@ uses C05.low-bounds
+//@ uses C05.low-above
+//@ uses C05.rank-range
+//@ opt opaque rQ rParsed rkLow
+//@ induction n general
+//@ requires 0 <= n && 0 <= a && a < b && b < rkLen(h, n)
+//@ ensures beats(h, rkSrc(h, n, a), rkSrc(h, n, b))
+//@ trigger rkSrc(h, n, a), rkSrc(h, n, b)
+
+//@ lemma C05.rank-pos
+//@ props C05
+//@ forall h string, n int, j int
+//@ uses C05.len-bounds
+//@ uses C05.low-bounds
+//@ uses C05.low-above
+//@ opt opaque rQ rParsed rkLow
+//@ induction n
+//@ requires 0 <= j && j < n && rParsed(h, j)
+//@ ensures bounds: 0 <= rkPos(h, n, j) && rkPos(h, n, j) < rkLen(h, n)
+//@ ensures inverse: rkSrc(h, n, rkPos(h, n, j)) == j
+//@ trigger rkPos(h, n, j)
+//@ trigger rParsed(h, j), rkLen(h, n)
 
 // ---------------------------------------------------------------------------
 // http middleware adapter (C06)
